@@ -124,7 +124,10 @@ func expectID(id interface{}) interface{} {
 
 // propOK compares a decoded property value with the original.
 func propOK(orig, got interface{}) bool {
-	num := func(f float64) bool { g, ok := got.(float64); return ok && (g == f || (math.IsNaN(g) && math.IsNaN(f))) }
+	num := func(f float64) bool {
+		g, ok := got.(float64)
+		return ok && (g == f || (math.IsNaN(g) && math.IsNaN(f)))
+	}
 	switch v := orig.(type) {
 	case string:
 		return got == v
